@@ -190,6 +190,14 @@ def c01_roundtrip(r):
         shutil.rmtree(d, ignore_errors=True)
 
 
+def c16_collision(r):
+    from diskcache.core import args_to_key
+    k1 = args_to_key(('f',), (1, None, 'a'), {}, False, ())
+    k2 = args_to_key(('f',), (1,), {'a': None}, False, ())
+    return {'reproduced': k1 == k2, 'observed': [repr(k1), repr(k2)],
+            'input': "f(1, None, 'a') vs f(1, a=None)"}
+
+
 def main():
     r = json.load(sys.stdin)
     try:
